@@ -45,8 +45,8 @@ PROPS["C01"] = {
 }
 
 PROPS["C02"] = {
-    "quick": [rapid("TestC02", 60000), plain("TestC02Shapes", shards=4), plain("TestSizeSweep", shards=4)],
-    "thorough": [rapid("TestC02", 600000, shards=16), plain("TestC02Shapes", shards=4), plain("TestSizeSweep", shards=4)],
+    "quick": [rapid("TestC02", 60000), plain("TestC02Shapes", shards=4), plain("TestSizeSweep", shards=4), plain("TestProducerConsumerGrid", shards=4)],
+    "thorough": [rapid("TestC02", 600000, shards=16), plain("TestC02Shapes", shards=4), plain("TestSizeSweep", shards=4), plain("TestProducerConsumerGrid", shards=4)],
     "rule": "(a) shape grid: 16 left-hand sides x 18 projection operator chains ([*], .*, [], [?..], slices, two-level combinations) x 18 right-hand sides (null-preserving and not: .k, [0], .type(@), .to_string(@), .not_null(@,1), .[@], .{v:@}, nested projections) x 7 terminators (pipe, paren+index, ||) on 11 documents with empty, heterogeneous, null-containing and nested containers; (b) rapid: G-doc document x document-aware projection-heavy expression ([*], .*, [], [?cond], slices, chained/nested, null-producing and non-null-preserving right-hand sides, functions after projections); oracle: reference evaluator with bag-aware comparison (object-member order free, content exact). Non-trivial: a projection applied its RHS to at least one element (kept or dropped-null), or hit a non-matching LHS, or flattened nested arrays, or a filter rejected an element. Ambiguous cases (order-sensitive use of member lists) are discarded and counted.",
     "assumptions": COMMON_ASSUMPTIONS,
     "min_nontrivial": 1000,
@@ -111,8 +111,8 @@ prop("C10",
      min_nontrivial=10000)
 
 prop("C11",
-     quick=[plain("TestC11Exhaustive"), plain("TestC11LargeKeys"), rapid("TestC11Random", 40000), plain("TestSizeSweep", shards=4)],
-     thorough=[plain("TestC11Exhaustive", env={"VERIF_C11_PAIRS": 1}, shards=8), plain("TestC11LargeKeys"), rapid("TestC11Random", 400000, shards=16), plain("TestSizeSweep", shards=4)],
+     quick=[plain("TestC11Exhaustive"), plain("TestC11LargeKeys"), plain("TestC11Typed"), rapid("TestC11Random", 40000), plain("TestSizeSweep", shards=4)],
+     thorough=[plain("TestC11Exhaustive", env={"VERIF_C11_PAIRS": 1}, shards=8), plain("TestC11LargeKeys"), plain("TestC11Typed"), rapid("TestC11Random", 400000, shards=16), plain("TestSizeSweep", shards=4)],
      rule="10 erroring seeds (invalid type, arity, unknown function, zero step, inconsistent/bad key, variadic type, expref as value, nested) x 40 strict context constructors (every operator side, projection kind incl. left operands and right-hand sides, filter condition, function argument positions, expression-reference bodies, multi-select members, pipes) exhaustively (thorough: all ordered pairs), every binary operator with an operand of each of the 36 universe values on the other side of the seed (4 carriers; the reference model decides whether the seed must be evaluated), by-expression functions on arrays of 22/41/61 elements with one erroring key at every position (errors raised inside sort comparators), 11 non-strict controls (short-circuit, empty/non-matching projections, multi-select on null), and random stacks of depth 1..6 incl. document-dependent seeds. Oracle: metamorphic (Search(E) errors => Search(C[E]) errors and returns nil) for stacks that guarantee evaluation, and differential vs the reference evaluator for all. Non-trivial: a strict stack whose seed errors.",
      technique="metamorphic error-preservation under strict evaluation contexts + differential vs reference evaluator; exhaustive singles/pairs, random stacks",
      level_text="All single contexts (thorough: pairs) are enumerated; deeper nestings randomly.",
@@ -131,8 +131,8 @@ prop("C05",
      assumptions=["native fuzzing cannot be pinned to VERIF_SEED; its reproducible unit is the saved input (replay file)", "the watchdog (20 s, >= 10^4 x the normal cost) and the allocation envelope are generous bounds, not tight ones"])
 
 prop("C06",
-     quick=[rapid("TestC06", 15000, shards=4), plain("TestSizeSweep", shards=4)],
-     thorough=[rapid("TestC06", 400000, shards=16), rapid("TestC12", 6000, shards=4, race=True, env={"VERIF_C12_MODE": "reader"}), plain("TestSizeSweep", shards=4)],
+     quick=[rapid("TestC06", 15000, shards=4), plain("TestSizeSweep", shards=4), plain("TestProducerConsumerGrid", shards=4)],
+     thorough=[rapid("TestC06", 400000, shards=16), rapid("TestC12", 6000, shards=4, race=True, env={"VERIF_C12_MODE": "reader"}), plain("TestSizeSweep", shards=4), plain("TestProducerConsumerGrid", shards=4)],
      rule="rapid: (a) 35 templates applying every reordering/combining function (sort_by, sort, reverse, merge, to_array, map, max_by, flatten, slices, pipes) to documents whose arrays are visibly unsorted, optionally wrapped in a strict context, with a poisoned last key so that by-expression functions fail after partial work; (b) document-aware all-function expressions on those documents; (c) on G-doc documents. The document is rebuilt so that every array has hidden spare capacity filled with sentinels. Oracle: deep snapshot before == after (array order included) and sentinel tails intact, after the one-shot Search and after Compile+Search, on success and on error paths; thorough additionally runs searches under the race detector while another goroutine deep-reads the same document. Non-trivial: the reference evaluation shows that a function call or projection was evaluated (classes list call.<function>, path.success / path.error).",
      technique="invariant over generated (expression, document) pairs: deep snapshot equality + spare-capacity sentinels; race detector with a concurrent reader (thorough)",
      level_text="A write that restores the old value is invisible to a snapshot; the thorough tier's concurrent reader under -race covers it.",
@@ -148,8 +148,8 @@ prop("C12",
      assumptions=["schedules are not enumerated: the Go scheduler is not controlled by the harness", "a schedule-dependent failure is replayed by re-running the case 200 times under -race"])
 
 prop("C13",
-     quick=[rapid("TestC13", 1500, shards=4), rapid("TestC13Structs", 12000, shards=2)],
-     thorough=[rapid("TestC13", 40000, shards=14, timeout="2h"), rapid("TestC13Structs", 200000, shards=2)],
+     quick=[rapid("TestC13", 1500, shards=4), rapid("TestC13Structs", 12000, shards=2), plain("TestProducerConsumerGrid", shards=4)],
+     thorough=[rapid("TestC13", 40000, shards=14, timeout="2h"), rapid("TestC13Structs", 200000, shards=2), plain("TestProducerConsumerGrid", shards=4)],
      rule="rapid state machine (t.Repeat): state = pool of <= 6 compiled expressions (literal-sharing expressions, reorder templates, document-aware all-function expressions), pool of <= 6 documents (live objects), one long-lived Parser; actions compile / add document / search(i,j) / repeat / one-shot / parse valid / parse invalid (unclosed raw strings after an escaped quote, bad escapes, every parser error site, random bytes) / parse long-then-short; invariant after every step: every pool document deep-equals its original. Model: each search equals a freshly compiled expression on a deep copy of the original document, the one-shot Search, and the reference model (bag-aware); each reused-parser Parse equals NewParser().Parse (AST dump, error text, SyntaxError fields). Additionally (TestC13Structs): one compiled navigational expression searched twice round over 2-4 documents of different run-time generated struct types must agree with the one-shot Search every time. Non-trivial: a history with >= 2 searches on one compiled expression where an earlier one failed or used another document, or a valid parse after an invalid one on the reused Parser. Distinct by hash of the action trace.",
      technique="stateful model-based testing (rapid state machine) against the model 'fresh Compile / fresh Parser per call' and the reference evaluator",
      level_text="Histories are explored randomly and shrink as one value; the replay file is the action trace.",
@@ -164,16 +164,16 @@ prop("C14",
      min_nontrivial=10000)
 
 prop("C15",
-     quick=[rapid("TestC15Pipe", 40000), rapid("TestC15Subst", 40000), plain("TestC15Shapes", shards=6), plain("TestC15Structs"), plain("TestC15Sizes")],
-     thorough=[rapid("TestC15Pipe", 400000, shards=8), rapid("TestC15Subst", 400000, shards=8), plain("TestC15Shapes", shards=6), plain("TestC15Structs"), plain("TestC15Sizes")],
+     quick=[rapid("TestC15Pipe", 40000), rapid("TestC15Subst", 40000), plain("TestC15Shapes", shards=6), plain("TestC15Structs"), plain("TestC15Sizes"), plain("TestProducerConsumerGrid", shards=4)],
+     thorough=[rapid("TestC15Pipe", 400000, shards=8), rapid("TestC15Subst", 400000, shards=8), plain("TestC15Shapes", shards=6), plain("TestC15Structs"), plain("TestC15Sizes"), plain("TestProducerConsumerGrid", shards=4)],
      rule="rapid: (a) pairs (A, B), B generated against the value of A: Search('(A) | (B)', d) vs Search(B, Search(A, d)): equal values, error exactly when a step errors; (b) sub-expression S in one of 26 root-evaluated contexts C (pipe left, ||/&& operands, multi-select members, function arguments, comparator operands, projection left-hand sides, ...): Search(C[S], d) vs Search(C[literal(Search(S, d))], d). (c) shape grid: every projection-shape expression A (16 left-hand sides x 18 projection operator chains x 18 right-hand sides) piped into 20 short right-hand sides B ([0], [-1], length(@), [?@], type(@), ...) on 11 documents with null-producing elements. (d) the pipe law on a Go struct document (typed slices, pointers) with type-sensitive right-hand sides (sort, max, join, sum, ==). The library is compared with itself; the reference model only supplies the ambiguity verdict and the bag structure for order-insensitive comparison. Non-trivial: A non-identity with non-null result and B not a literal; S not already a literal.",
      technique="algebraic laws checked on the library itself (metamorphic): pipe splitting and literal substitution",
      level_text="Metamorphic relations over generated expressions and documents; no expected answers needed.",
      min_nontrivial=3000)
 
 prop("C16",
-     quick=[rapid("TestC16", 20000, shards=4), plain("TestSizeSweep", shards=4)],
-     thorough=[rapid("TestC16", 600000, shards=16), plain("TestSizeSweep", shards=4)],
+     quick=[rapid("TestC16", 20000, shards=4), plain("TestSizeSweep", shards=4), plain("TestProducerConsumerGrid", shards=4)],
+     thorough=[rapid("TestC16", 600000, shards=16), plain("TestSizeSweep", shards=4), plain("TestProducerConsumerGrid", shards=4)],
      rule="rapid: G-doc documents (numbers |x| <= 1e15) x (a) every function with closure-threatening arguments (empty arrays/objects/strings, 'inf', 'nan', 'Infinity', '1e999', '0x1p4', empty projections/slices) in 5 contexts, (b) document-aware all-function expressions. Precondition: the expression is a sentence of the strict grammar (expression references only as function arguments). Oracle (validity predicate): on success the result consists only of nil, bool, finite float64, string, non-nil []interface{} and non-nil map[string]interface{}, json.Marshal succeeds and json.Unmarshal of the text deep-equals the result. Non-trivial: Search succeeded with a non-null result; classes: result type, top-level node, top-level function.",
      technique="validity predicate (type walk + JSON marshal/unmarshal round trip) over generated expressions",
      level_text="Closure is a predicate on every reachable result; no reference needed.",
